@@ -531,6 +531,8 @@ func TestProp(t *testing.T) {
 		return
 	}
 	defer r.Finish()
+	var pool evid.Pool[Case] // rapid-drawn cases, evaluated side by side once more at the end
+	defer func() { evid.Concurrent(r, &pool, 16, Eval) }()
 	r.Regress()
 	if err := refcheck.Crypto(); err != nil {
 		r.Inconclusive("reference crypto self-test failed: %v", err)
@@ -573,6 +575,9 @@ func TestProp(t *testing.T) {
 		r.Count(nt, labels...)
 		r.Sample(c.Kind+"/"+c.T.Kind+"/"+outcome, c)
 		if rt != nil {
+			if v.OK && c.Kind != "e2e" {
+				pool.Add(check, c)
+			}
 			if r.Judge(check, c, v) {
 				rt.Fatalf("violation %s", v.Sig)
 			}
